@@ -10,9 +10,9 @@
     "writing … and reading it back gives the same blocks in the same order,
      each with the same primary variables (to 13 decimals), porosity, optional permeability triple,
      optional sequence numbers, the same simulator flavour and, when not reset, the same restart
-     timing"                                   incon_roundtrip  (+ corollaries blocks_in_order, flavour_preserved,
+     timing"                                   incon_roundtrip_partial  (+ corollaries blocks_in_order, flavour_preserved,
                                                timing_iff_not_reset, variables_to_13_decimals, integers_exact)
-    "1..12 primary variables (1..3 lines)"     incon_roundtrip (any count ≥ 1) and num_variables_needed
+    "1..12 primary variables (1..3 lines)"     incon_roundtrip_partial (any count ≥ 1) and num_variables_needed
     "block names survive the naming quirk in both directions"   name_written_then_read, name_read_then_written
     "writing it again reproduces the file byte for byte"        not proved here (see the note at the end)
 -/
@@ -69,17 +69,29 @@ def canon (rf : ReadFn) (x : Incon Val) (reset : Bool) : Incon PVal :=
 
 /-! ### write, then read -/
 
-/-- **Round trip.**  For every set of initial conditions in the property's quantifier (`InconWF`:
-    any number of blocks ≥ 0 with pairwise distinct five-character names that are canonical and
-    pass `valid_blockname`; ≥ 1 real primary variables per block, the same number `n` in every block,
-    `num_variables = n` passed to `read`, or nothing passed and `n ≤ 4`; porosity a real or absent;
-    `nseq/nadd` integers or absent; permeability triples of reals on any subset of the blocks; flavour
-    TOUGH2, or TOUGHREACT with at least one block carrying permeabilities; timing absent, or with
-    integer/absent counters and real times), for `reset` on or off, for either conversion
-    dictionary and `check_blocknames` on or off: if `write` succeeds (every value fits its columns,
-    possibly at reduced precision) then a fresh `t2incon(file, num_variables)` returns exactly
-    `canon x reset`. -/
-theorem incon_roundtrip (rf : ReadFn) (x : Incon Val) (nvars : Option Nat) (check reset : Bool)
+/-- **Round trip** (`_partial`: the classes excluded by `InconWF` are listed below, each with a
+    witness further down showing that the model — and, replayed by the harness, the real code —
+    really fails there).
+
+    For every set of initial conditions with `InconWF x nvars`: any number of blocks ≥ 0 with
+    pairwise distinct five-character names; ≥ 1 real primary variables per block, the same number
+    `n` in every block, `num_variables = n` passed to `read`, or nothing passed and `n ≤ 4`;
+    porosity a real or absent; `nseq/nadd` integers or absent; permeability triples of reals on any
+    subset of the blocks; timing absent, or with integer/absent counters and real times; for
+    `reset` on or off, either conversion dictionary, `check_blocknames` on or off: if `write`
+    succeeds (every value fits its columns, possibly at reduced precision) then a fresh
+    `t2incon(file, num_variables)` returns exactly `canon x reset`.
+
+    Excluded (hypotheses of `InconWF` that the proof forced):
+    * E1 `BlockWF.valid`: names rejected by `valid_blockname` — all of naming convention 3
+      (known finding `conv3-name-rejected-on-read`; witness `excluded_conv3`);
+    * E2 `InconWF.flavour`: simulator TOUGHREACT with no block carrying permeabilities
+      (known finding `toughreact-flavour-lost-without-permeability`; witness `excluded_toughreact_bare`);
+    * E3 `BlockWF.canonical`: names that `fix ∘ unfix` changes (`abc07`, `ab1 7`; witnesses after
+      `name_written_then_read`), and `BlockWF.noplus`: a name starting with `+++` ends the block loop;
+    * E4 `NvarsOK`: more than four variables without `num_variables`, or unequal counts
+      (`num_variables_needed` says what the reader does instead). -/
+theorem incon_roundtrip_partial (rf : ReadFn) (x : Incon Val) (nvars : Option Nat) (check reset : Bool)
     (hwf : InconWF x nvars) {file : List Str} (hw : write theSpecs x reset = .ok file) :
     read rf theSpecs TOUGH2 nvars check file = .ok (canon rf x reset) :=
   read_write rf layout_ok timing_ok timing_toughreact_ok x nvars check reset hwf hw
@@ -196,6 +208,23 @@ example : (read .fortran theSpecs TOUGH2 none true
     ["INCON\n".toList, "ab1 7         31.000000000e-01\n".toList,
      "-2.6000000000000e+031.0000000000000e-100\n".toList, "\n".toList, "\n".toList]).map (fun x => x.blocks.map (·.block))
     = .ok ["ab107".toList] := by decide +kernel
+
+/-! ### the excluded classes are really excluded (witnesses on the model; the harness replays them on /repo) -/
+
+def exConv3 : Incon Val := { exIncon with blocks := [{ exBlock with block := "aakbb".toList }] }
+
+/-- E1: a convention-3 name is written, but reading the file back raises (`Exception('Invalid block name')`) -/
+theorem excluded_conv3 :
+    (write theSpecs exConv3 false).toOption.isSome = true ∧
+    (write theSpecs exConv3 false >>= read .fortran theSpecs TOUGH2 none true) = .error .generic := by
+  constructor <;> decide +kernel
+
+def exBare : Incon Val := { exIncon with simulator := TOUGHREACT }
+
+/-- E2: a TOUGHREACT object without permeabilities comes back as TOUGH2 -/
+theorem excluded_toughreact_bare :
+    (write theSpecs exBare false >>= read .fortran theSpecs TOUGH2 none true).map (·.simulator) = .ok TOUGH2 := by
+  decide +kernel
 
 /-
   Not proved: "writing it again reproduces the file byte for byte".  In the model (exact decimals)
